@@ -500,18 +500,28 @@ func c09Cases(tier string) []c09Case {
 			if lab[i] > 0 {
 				seed = 50 + lab[i]
 			}
-			t = append(t, fsmodel.Node{Path: p, Kind: fsmodel.File, Perm: 0644, Mtime: fsmodel.T0 + int64(seed), Data: fsmodel.Content(seed, 4), HL: lab[i]})
+			n := fsmodel.Node{Path: p, Kind: fsmodel.File, Perm: 0644, Mtime: fsmodel.T0 + int64(seed), Data: fsmodel.Content(seed, 4), HL: lab[i]}
+			if lab[i] > 0 {
+				// the inode's attributes are reported for every one of its names
+				n.Xattrs = map[string]string{"user.group": fmt.Sprint(lab[i]), "trusted.t": "x"}
+			}
+			t = append(t, n)
 		}
 		t.Sort()
 		out = append(out, c09Case{Tree: t})
 		out = append(out, c09Case{Tree: t, Sub: []string{"s1"}})
 		out = append(out, c09Case{Tree: t, Sub: []string{"s", "s-1", "s0"}})
+		// sub-roots named like directories of the tree they hold
+		out = append(out, c09Case{Tree: t, Sub: []string{"d"}}, c09Case{Tree: t, Sub: []string{"d", "e"}})
 		// the same layouts with symlink inodes and with fifos that have several names
 		for _, kind := range []fsmodel.Kind{fsmodel.Symlink, fsmodel.Fifo} {
 			tk := t.Clone()
 			for i := range tk {
 				if tk[i].Kind == fsmodel.File {
 					tk[i].Kind, tk[i].Data = kind, nil
+					if tk[i].Xattrs != nil {
+						tk[i].Xattrs = map[string]string{"trusted.t": "x"} // user.* is for regular files and directories only
+					}
 					if kind == fsmodel.Symlink {
 						tk[i].Perm, tk[i].Link = 0777, fmt.Sprintf("../t%d", tk[i].Mtime-fsmodel.T0)
 					}
